@@ -416,11 +416,12 @@ carquet_status_t carquet_statistics_build(
                 memcpy(stats->min_value, builder->min_value, builder->min_len);
             }
         }
-        if (stats->min_value) {
-            stats->min_value_len = (int32_t)builder->min_len;
-            stats->has_is_min_value_exact = true;
-            stats->is_min_value_exact = true;
+        if (!stats->min_value) {
+            return CARQUET_ERROR_OUT_OF_MEMORY;
         }
+        stats->min_value_len = (int32_t)builder->min_len;
+        stats->has_is_min_value_exact = true;
+        stats->is_min_value_exact = true;
     }
 
     /* Max value */
@@ -434,11 +435,21 @@ carquet_status_t carquet_statistics_build(
                 memcpy(stats->max_value, builder->max_value, builder->max_len);
             }
         }
-        if (stats->max_value) {
-            stats->max_value_len = (int32_t)builder->max_len;
-            stats->has_is_max_value_exact = true;
-            stats->is_max_value_exact = true;
+        if (!stats->max_value) {
+            /* Nothing half-built is handed out: without an arena the
+             * minimum copied above belongs to this call */
+            if (!arena) {
+                free(stats->min_value);
+            }
+            stats->min_value = NULL;
+            stats->min_value_len = 0;
+            stats->has_is_min_value_exact = false;
+            stats->is_min_value_exact = false;
+            return CARQUET_ERROR_OUT_OF_MEMORY;
         }
+        stats->max_value_len = (int32_t)builder->max_len;
+        stats->has_is_max_value_exact = true;
+        stats->is_max_value_exact = true;
     }
 
     return CARQUET_OK;
